@@ -32,8 +32,13 @@ def all_strategies():
 # ------------------------------------------------------------------------------------------
 # one case
 
-def triple_at(seed, n, index):
+def triple_at(seed, n, index, gen=None):
     from bounded import nbspace
+    if gen == 'nonascii':
+        # text outside ASCII: even index -- both sides change the same line (conflict); odd -- different cells (clean)
+        if index % 2:
+            return nbspace.nonascii_disjoint_case(index // 2)[:3]
+        return nbspace.nonascii_conflict_triple(nbspace.nonascii_disjoint_case(index // 2)[0], random.Random(seed * 31 + index))
     for ti, t in enumerate(nbspace.triples(seed, n)):
         if ti == index:
             return t
@@ -78,7 +83,7 @@ def run_case(triple, where):
                 fired = True
             before = H.snapshot(d)
             if mode == 'subproc':
-                rc, stdout, stderr = H.invoke_subprocess(app, argv, d, fault_step)
+                rc, stdout, stderr = H.invoke_subprocess(app, argv, d, fault_step, where.get('locale'))
                 status, how = rc, 'process exit status %d' % rc
                 if fault_step:
                     fired = rc == -9
@@ -99,6 +104,8 @@ def run_case(triple, where):
             info.update(status=status, fired=fired)
             desc = '%s %s' % ('git-nbmergedriver' if app == 'driver' else 'nbmerge',
                               ' '.join(a.replace(d + os.sep, '') for a in argv))
+            if where.get('locale'):
+                desc += ' (process locale %s, not UTF-8; notebooks with text outside ASCII)' % where['locale']
 
             others = sorted(k for k in set(before) | set(after) if k != outname and before.get(k) != after.get(k))
             if others:
@@ -219,6 +226,11 @@ def subprocess_plan(seed, count):
         out.append({'seed': seed * 13 + 1, 'n': n, 'index': rnd.randrange(n), 'app': app, 'layout': layout, 'mode': 'subproc',
                     'with_out': with_out, 'pre_out': bool(k % 2), 'pathname': bool(k % 3), 'explicit': True,
                     'strategy': list(CORE[k % len(CORE)]), 'fault': fault})
+    # processes whose locale encoding is not UTF-8, on notebooks full of text outside ASCII: named output, stdout, git driver
+    for k, (app, layout, with_out) in enumerate([('cli', 'plain', True), ('cli', 'plain', False), ('driver', 'plain', True), ('cli', 'plain', True),
+                                                 ('cli', 'plain', False), ('driver', 'plain', True), ('cli', 'null-base', True), ('cli', 'plain', False)]):
+        out.append({'seed': seed, 'n': 8, 'index': k, 'gen': 'nonascii', 'locale': 'C', 'app': app, 'layout': layout, 'mode': 'subproc',
+                    'with_out': with_out, 'pre_out': bool(k % 2), 'pathname': True, 'explicit': True, 'strategy': list(CORE[0]), 'fault': None})
     return out
 
 
@@ -240,13 +252,13 @@ def _job(job):
                 results.append((where, fails, info))
     else:
         _, where = job
-        fails, info = run_case(triple_at(where['seed'], where['n'], where['index']), where)
+        fails, info = run_case(triple_at(where['seed'], where['n'], where['index'], where.get('gen')), where)
         results.append((where, fails, info))
     return results
 
 
 def replay_case(where):
-    fails, info = run_case(triple_at(where['seed'], where['n'], where['index']), where)
+    fails, info = run_case(triple_at(where['seed'], where['n'], where['index'], where.get('gen')), where)
     want = where.get('kind')
     return [f for f in fails if want is None or f[0] == want]
 
@@ -319,7 +331,8 @@ def run_bounded(res):
         'read_notebook / nbformat.read / open), merge_notebooks, 1st and 2nd diff_notebooks, decide_merge_with_diff, apply_decisions (MemoryError / KeyboardInterrupt / RuntimeError), '
         'nbformat.write before writing (ENOSPC), opening the output (ENOSPC), 1st and 2nd write() to it (ENOSPC after half the data), close (EIO), '
         'KeyboardInterrupt after the write; del-both: read of base, os.remove of the output. Real subprocesses (python -m nbdime.nbmergeapp / '
-        'nbdime.vcs.git.mergedriver): %d cases over all layouts incl. stdout output (no --out) and SIGKILL at merge / before write. '
+        'nbdime.vcs.git.mergedriver): %d cases over all layouts incl. stdout output (no --out) and SIGKILL at merge / before write, plus 8 cases (named output, stdout, '
+        'git driver; conflicted and clean) in a process whose locale encoding is not UTF-8 (LC_ALL=C, UTF-8 mode and coercion off) on notebooks with text outside ASCII. '
         'Cases whose library merge raises are skipped (C03). Non-trivial = local and remote differ as read; distinct by canonical JSON of inputs + '
         'app, layout, strategy, fault.' % nsub)
     res.assumptions.append('bounded: only the stated small scope is explored; faults are injected at Python-level step boundaries by monkey-patching, one per run')
